@@ -26,7 +26,11 @@ def run(tier, seed):
     # which refs a configured fetch would update: refspecs written by `wrgl remote ...` (engine remotecfg)
     from props import remotecfg_common
     rcov, _ = remotecfg_common.run(v, PROP, tier, seed)
+    # two-repository behaviours of System2.tla (commit / fetch / push / pull / merge / prune through the real CLI)
+    from props import system2_common
+    sys2cov, _ = system2_common.run(v, PROP, tier, seed)
     cov = {
+        "system2_behaviours": sys2cov,
         "remotecfg": rcov,
         "system_behaviours": syscov,
         "states": res.distinct, "transitions": res.generated,
@@ -48,6 +52,9 @@ def run(tier, seed):
 def replay(path):
     with open(path) as f:
         doc = json.load(f)
+    if doc.get("engine") == "system2":
+        from props import system2_common
+        return system2_common.replay(PROP, path, doc)
     scn = doc.get("scenario")
     if not scn:
         raise vlib.Inconclusive("trace finding: rerun `bin/check %s`" % PROP)
